@@ -45,8 +45,6 @@ FINDING_SITES = {
                     "`use entity lib.ent(arch)`): names are not resolved",
     "block_map_formal": "formal part of a block header generic map / port map (`generic map (bg => ..)`) is not resolved",
     "resolution_function": "resolution function name in a subtype indication (`subtype r is resolve bit`) is not resolved",
-    "param_conformance": "formal parameter of a subprogram with separate declaration and body: only the declaration-side or "
-                         "only the body-side parameter is renamed, leaving specification and body non-conforming (LRM 4.10)",
     "two_libraries": "file mapped to two libraries: only the entity of one library is renamed, references through the "
                      "other library keep the old name although the shared file is edited",
 }
@@ -323,7 +321,7 @@ def lsp_session(lsbin, pdir, libsdir, g, requests):
 # ----------------------------------------------------------------------------------------------
 def family_of(seed_, idx):
     k = idx % 14
-    return [None, None, "config_spec", None, "block_config", None, None, "block_map_formal", None, "param_conformance",
+    return [None, None, "config_spec", None, "block_config", None, None, "block_map_formal", None, None,
             None, "two_libraries", None, "resolution_function"][k]
 
 
@@ -391,7 +389,7 @@ def main(tier, replay=None):
         only_ent = rp.get("ent_id")
         limit = None
     else:
-        nproj = 60 if tier == "quick" else 420
+        nproj = 60 if tier == "quick" else 150
         plan = [(seed(), i, family_of(seed(), i)) for i in range(nproj)]
         only_ent = None
         limit = 8 if tier == "quick" else None
@@ -411,51 +409,9 @@ def main(tier, replay=None):
         g["seed"], g["idx"] = sd, idx
         g["dir"] = os.path.join(pdir_root, "p%d_%d" % (sd, idx))
         projects.append(g)
-    for g in projects:
-        write_project(g["dir"], g["texts"], g["libs"], g["open"])
-
-    # ---- requests per project
     stats = {"projects": len(projects), "not_error_free": 0, "renames": 0, "distinct_edit_sets": 0, "refusal_probes": 0,
              "kinds": {}, "families": {}, "edits": 0, "files_touched_max": 0, "known_finding_cases": {},
              "unicode_projects": 0, "prepare_none_on_identifier": 0}
-    for g in projects:
-        R = random.Random("pick:%s:%s" % (g.get("seed"), g.get("idx")))
-        ents = pick_entities(R, g["ents"], None if g.get("seed") == "corpus" else limit)
-        if only_ent is not None:
-            ents = [x for x in g["ents"] if x.id == only_ent]
-        reqs = []
-        for x in ents:
-            decl = [o for o in x.occs if o.role == "d"][0]
-            others = [o for o in x.occs if o is not decl]
-            for o in [decl] + ([R.choice(others)] if others else []):
-                k = R.choice([0, 0, R.randrange(0, o.c1 - o.c0 + 1), o.c1 - o.c0])
-                reqs.append({"file": o.file, "line": o.line, "char": o.c0 + k, "rename": True, "ent": x, "occ": o})
-        for m in g["marks"]:
-            reqs.append({"file": m.file, "line": m.line, "char": m.c0 + (1 if m.kind.startswith("char") or m.kind == "op_decl" else 0),
-                         "rename": False, "mark": m})
-        g["reqs"] = reqs
-        stats["families"][str(g["family"])] = stats["families"].get(str(g["family"]), 0) + 1
-        if g["open"]:
-            stats["unicode_projects"] += 1
-
-    # ---- base snapshots (with the cursor queries of rename.rs)
-    jobs = [{"dir": g["dir"], "files": [os.path.join(g["dir"], f) for f in g["order"]],
-             "open": [os.path.join(g["dir"], f) for f in g["open"]], "libs": libsdir, "full": False,
-             "queries": [[os.path.join(g["dir"], q["file"]), q["line"], q["char"]] for q in g["reqs"]]} for g in projects]
-    base = run_snapshots(hbin, d, "base", jobs)
-    for g, b in zip(projects, base):
-        g["base"] = b
-
-    # ---- LSP sessions in parallel
-    def sess(g):
-        g["view"], g["caps"], g["lsp_error"] = lsp_session(lsbin, g["dir"], libsdir, g, g["reqs"])
-    with ThreadPoolExecutor(max_workers=12) as ex:
-        list(ex.map(sess, projects))
-
-    # ---- evaluate answers, build the rename cases
-    cases = []        # one per distinct (project, edit set)
-    model_lines = []  # lines for the extracted runner
-    model_refs = []   # (kind, payload) aligned with model_lines
     viol_budget = [12]
 
     def violation(what, obj, nf=False):
@@ -478,344 +434,403 @@ def main(tier, replay=None):
             o.update(extra)
         return o
 
-    for g in projects:
-        b = g["base"]
-        if "error" in b:
-            violation("harness snapshot failed: %s" % b["error"], replay_obj(g), nf=True)
-            continue
-        if g["lsp_error"]:
-            violation("language server died during prepareRename/rename: %s" % g["lsp_error"], replay_obj(g))
-            continue
-        errs = [x for x in b["diags"] if x["error"]]
-        if errs:
-            # the property only speaks about error-free projects: generator defect, not a finding
-            stats["not_error_free"] += 1
-            stats.setdefault("not_error_free_examples", [])
-            if len(stats["not_error_free_examples"]) < 3:
-                stats["not_error_free_examples"].append({"seed": g.get("seed"), "idx": g.get("idx"), "family": g["family"],
-                                                          "diag": errs[0]})
-            continue
-        rp = (g["caps"].get("renameProvider") or {})
-        if not (isinstance(rp, dict) and rp.get("prepareProvider") is True):
-            violation("server does not announce renameProvider.prepareProvider: clients would not ask prepareRename "
-                      "before renaming operator symbols", replay_obj(g))
-        # server diagnostics == snapshot diagnostics (the snapshot tool sees what the server sees)
-        sv = set()
-        for u, ds in g["view"].items():
-            for x in ds:
-                r = x["range"]
-                sv.add((u[len("file://"):], r["start"]["line"], r["start"]["character"], r["end"]["line"], r["end"]["character"],
-                        x["message"]))
-        hv = set((x["loc"][0], *x["loc"][1], x["message"]) for x in b["diags"])
-        if sv != hv:
-            violation("diagnostics published by the server differ from Project::analyse of the snapshot tool",
-                      replay_obj(g, extra={"kind": "correspondence", "correspondence": "vhdl_ls publishDiagnostics vs harness c09",
-                                           "only_server": sorted(sv - hv)[:5], "only_harness": sorted(hv - sv)[:5]}), nf=True)
-        fidx = {os.path.join(g["dir"], f): i for i, f in enumerate(g["order"])}
-        toks = {f: ident_tokens(t) for f, t in g["texts"].items()}
-        seen_sets = {}
-        for rq, ans in zip(g["reqs"], b.get("answers", [])):
-            iac = ans.get("iac")
-            # ---- model of prepare_rename
-            item = "-" if iac is None else "%s,%d,%d,%d,%d" % (iac["dk"], *iac["range"])
-            model_lines.append("P|1%d|%s" % (1 if ans.get("source") else 0, item))
-            model_refs.append(("P", g, rq))
-            if not rq["rename"]:
-                stats["refusal_probes"] += 1
-                res.count_case("refuse:%s:%s:%s" % (g.get("idx"), rq["mark"].kind, rq["line"]), True)
-                if rq["prepare"] is not None:
-                    violation("(v) prepareRename is not refused on %s `%s`" % (rq["mark"].kind, rq["mark"].text),
-                              replay_obj(g, rq, {"answer": rq["prepare"]}))
+    agg = {}
+    cross_checked = [False]
+
+    def run_batch(projects):
+        if os.path.isdir(pdir_root):
+            shutil.rmtree(pdir_root)
+        for g in projects:
+            write_project(g["dir"], g["texts"], g["libs"], g["open"])
+        # ---- requests per project
+        for g in projects:
+            R = random.Random("pick:%s:%s" % (g.get("seed"), g.get("idx")))
+            ents = pick_entities(R, g["ents"], None if g.get("seed") == "corpus" else limit)
+            if only_ent is not None:
+                ents = [x for x in g["ents"] if x.id == only_ent]
+            reqs = []
+            for x in ents:
+                decl = [o for o in x.occs if o.role == "d"][0]
+                others = [o for o in x.occs if o is not decl]
+                for o in [decl] + ([R.choice(others)] if others else []):
+                    k = R.choice([0, 0, R.randrange(0, o.c1 - o.c0 + 1), o.c1 - o.c0])
+                    reqs.append({"file": o.file, "line": o.line, "char": o.c0 + k, "rename": True, "ent": x, "occ": o})
+            for m in g["marks"]:
+                reqs.append({"file": m.file, "line": m.line, "char": m.c0 + (1 if m.kind.startswith("char") or m.kind == "op_decl" else 0),
+                             "rename": False, "mark": m})
+            g["reqs"] = reqs
+            stats["families"][str(g["family"])] = stats["families"].get(str(g["family"]), 0) + 1
+            if g["open"]:
+                stats["unicode_projects"] += 1
+
+        # ---- base snapshots (with the cursor queries of rename.rs)
+        jobs = [{"dir": g["dir"], "files": [os.path.join(g["dir"], f) for f in g["order"]],
+                 "open": [os.path.join(g["dir"], f) for f in g["open"]], "libs": libsdir, "full": False,
+                 "queries": [[os.path.join(g["dir"], q["file"]), q["line"], q["char"]] for q in g["reqs"]]} for g in projects]
+        base = run_snapshots(hbin, d, "base", jobs)
+        for g, b in zip(projects, base):
+            g["base"] = b
+
+        # ---- LSP sessions in parallel
+        def sess(g):
+            g["view"], g["caps"], g["lsp_error"] = lsp_session(lsbin, g["dir"], libsdir, g, g["reqs"])
+        with ThreadPoolExecutor(max_workers=12) as ex:
+            list(ex.map(sess, projects))
+
+        # ---- evaluate answers, build the rename cases
+        cases = []        # one per distinct (project, edit set)
+        model_lines = []  # lines for the extracted runner
+        model_refs = []   # (kind, payload) aligned with model_lines
+        for g in projects:
+            b = g["base"]
+            if "error" in b:
+                violation("harness snapshot failed: %s" % b["error"], replay_obj(g), nf=True)
                 continue
-            x = rq["ent"]
-            o = rq["occ"]
-            stats["renames"] += 1
-            stats["kinds"][x.kind] = stats["kinds"].get(x.kind, 0) + 1
-            if iac is not None and iac.get("library"):
+            if g["lsp_error"]:
+                violation("language server died during prepareRename/rename: %s" % g["lsp_error"], replay_obj(g))
                 continue
-            # ---- model of rename
-            far = ans.get("far")
-            if far is None:
-                model_lines.append("R|1%d|0|%s|" % (1 if ans.get("source") else 0, " ".join(str(ord(c)) for c in NEW_NAME)))
-            else:
-                outside = [p for p in far if p[0] not in fidx]
-                for p in outside:
-                    fidx.setdefault(p[0], len(fidx))
-                model_lines.append("R|11|1|%s|%s" % (" ".join(str(ord(c)) for c in NEW_NAME),
-                                                    ";".join("%d,%d,%d,%d,%d" % (fidx[p[0]], *p[1]) for p in far)))
-            model_refs.append(("R", g, rq, dict(fidx)))
-            # ---- oracle on the answers
-            pr = rq["prepare"]
-            if pr is None:
-                stats["prepare_none_on_identifier"] += 1
-                stats.setdefault("prepare_none_examples", []).append("%s/%s %s:%d:%d %s" % (g.get("seed"), g.get("idx"), rq["file"], rq["line"], rq["char"], x.name))
-                if iac is None:
-                    # the search does not find the identifier at all (C08's subject); rename is then impossible, not wrong
+            errs = [x for x in b["diags"] if x["error"]]
+            if errs:
+                # the property only speaks about error-free projects: generator defect, not a finding
+                stats["not_error_free"] += 1
+                stats.setdefault("not_error_free_examples", [])
+                if len(stats["not_error_free_examples"]) < 3:
+                    stats["not_error_free_examples"].append({"seed": g.get("seed"), "idx": g.get("idx"), "family": g["family"],
+                                                              "diag": errs[0]})
+                continue
+            rp = (g["caps"].get("renameProvider") or {})
+            if not (isinstance(rp, dict) and rp.get("prepareProvider") is True):
+                violation("server does not announce renameProvider.prepareProvider: clients would not ask prepareRename "
+                          "before renaming operator symbols", replay_obj(g))
+            # server diagnostics == snapshot diagnostics (the snapshot tool sees what the server sees)
+            sv = set()
+            for u, ds in g["view"].items():
+                for x in ds:
+                    r = x["range"]
+                    sv.add((u[len("file://"):], r["start"]["line"], r["start"]["character"], r["end"]["line"], r["end"]["character"],
+                            x["message"]))
+            hv = set((x["loc"][0], *x["loc"][1], x["message"]) for x in b["diags"])
+            if sv != hv:
+                violation("diagnostics published by the server differ from Project::analyse of the snapshot tool",
+                          replay_obj(g, extra={"kind": "correspondence", "correspondence": "vhdl_ls publishDiagnostics vs harness c09",
+                                               "only_server": sorted(sv - hv)[:5], "only_harness": sorted(hv - sv)[:5]}), nf=True)
+            fidx = {os.path.join(g["dir"], f): i for i, f in enumerate(g["order"])}
+            toks = {f: ident_tokens(t) for f, t in g["texts"].items()}
+            seen_sets = {}
+            for rq, ans in zip(g["reqs"], b.get("answers", [])):
+                iac = ans.get("iac")
+                # ---- model of prepare_rename
+                item = "-" if iac is None else "%s,%d,%d,%d,%d" % (iac["dk"], *iac["range"])
+                model_lines.append("P|1%d|%s" % (1 if ans.get("source") else 0, item))
+                model_refs.append(("P", g, rq))
+                if not rq["rename"]:
+                    stats["refusal_probes"] += 1
+                    res.count_case("refuse:%s:%s:%s" % (g.get("idx"), rq["mark"].kind, rq["line"]), True)
+                    if rq["prepare"] is not None:
+                        violation("(v) prepareRename is not refused on %s `%s`" % (rq["mark"].kind, rq["mark"].text),
+                                  replay_obj(g, rq, {"answer": rq["prepare"]}))
                     continue
-            elif "error" in pr:
-                violation("prepareRename answered an error", replay_obj(g, rq, {"answer": pr}))
-                continue
-            else:
-                got = [pr["start"]["line"], pr["start"]["character"], pr["end"]["line"], pr["end"]["character"]]
-                if got != [o.line, o.c0, o.line, o.c1]:
-                    violation("prepareRename range %s is not the identifier token %s" % (got, [o.line, o.c0, o.line, o.c1]),
-                              replay_obj(g, rq, {"answer": pr}))
-            raw = rq.get("rename_raw")
-            if isinstance(raw, dict) and "error" in raw:
-                violation("rename answered an error", replay_obj(g, rq, {"answer": raw}))
-                continue
-            changes = parse_changes(raw)
-            rq["changes"] = changes
-            edits_by_file = {}
-            bad = None
-            for path, es in changes.items():
-                rel = os.path.relpath(path, g["dir"])
-                if rel not in g["texts"]:
-                    bad = "(iv) rename edits a file outside the project: %s" % path
-                    break
-                for (l0, c0, l1, c1, new) in es:
-                    if new != NEW_NAME:
-                        bad = "(iv) edit text %r is not the new name" % new
-                    edits_by_file.setdefault(rel, []).append((l0, c0, l1, c1))
-            if bad:
-                violation(bad, replay_obj(g, rq, {"answer": raw}))
-                continue
-            flat = [(f, *e) for f, es in edits_by_file.items() for e in es]
-            stats["edits"] += len(flat)
-            stats["files_touched_max"] = max(stats["files_touched_max"], len(edits_by_file))
-            # (iv) token-level, independent recogniser
-            problems = []
-            if len(set(flat)) != len(flat):
-                problems.append("duplicate edits: %s" % sorted(p for p in set(flat) if flat.count(p) > 1)[:3])
-            for (f, l0, c0, l1, c1) in sorted(set(flat)):
-                sp = toks[f].get((l0, c0, c1)) if l0 == l1 else None
-                if sp is None:
-                    problems.append("edit %s %s does not cover exactly one identifier token" % (f, [l0, c0, l1, c1]))
-                elif (sp != x.name if x.extended else sp.lower() != x.name.lower()):
-                    problems.append("edit %s %s covers `%s`, not the old name `%s`" % (f, [l0, c0, l1, c1], sp, x.name))
-            if problems:
-                violation("(iv) " + "; ".join(problems[:3]), replay_obj(g, rq, {"edits": sorted(flat)}))
-                continue
-            # (iii)+(iv) against the generator's occurrence set
-            expected = set((oc.file, oc.line, oc.c0, oc.line, oc.c1) for oc in x.occs)
-            got = set(flat)
-            missed = expected - got
-            extra = got - expected
-            if missed or extra:
-                sites = set(oc.site for oc in x.occs if (oc.file, oc.line, oc.c0, oc.line, oc.c1) in missed)
-                site = None
-                if not extra and missed:
-                    if x.finding and x.finding in FINDING_SITES:
-                        site = x.finding
-                    elif len(sites) == 1 and list(sites)[0] in FINDING_SITES:
-                        site = list(sites)[0]
-                if site and site in known:
-                    stats["known_finding_cases"][site] = stats["known_finding_cases"].get(site, 0) + 1
-                    res.count_case("known:%s:%s:%s" % (g.get("idx"), x.id, site), True)
-                    g.setdefault("known_examples", {}).setdefault(site, (rq, sorted(missed)))
+                x = rq["ent"]
+                o = rq["occ"]
+                stats["renames"] += 1
+                stats["kinds"][x.kind] = stats["kinds"].get(x.kind, 0) + 1
+                if iac is not None and iac.get("library"):
                     continue
-                what = []
-                if missed:
-                    what.append("(iii) %d occurrence(s) of %s `%s` missed by rename: %s" % (len(missed), x.kind, x.name, sorted(missed)[:4]))
-                if extra:
-                    what.append("(iv) %d edit(s) touch text that is not an occurrence of the entity: %s" % (len(extra), sorted(extra)[:4]))
-                if site:
-                    what.append("[finding site `%s`: %s — no open entry in known_findings.json]" % (site, FINDING_SITES[site]))
-                violation("; ".join(what), replay_obj(g, rq, {"edits": sorted(flat), "expected": sorted(expected), "site": site}))
-                continue
-            key = tuple(sorted(flat))
-            if key in seen_sets:
-                seen_sets[key]["requests"].append(rq)
-                continue
-            case = {"g": g, "rq": rq, "ent": x, "edits_by_file": edits_by_file, "requests": [rq], "n": len(cases)}
-            seen_sets[key] = case
-            cases.append(case)
-    stats["distinct_edit_sets"] = len(cases)
-
-    # ---- apply the edits: extracted model and python; write the renamed projects
-    a_lines = []
-    a_refs = []
-    after_root = os.path.join(d, "after")
-    if os.path.isdir(after_root):
-        shutil.rmtree(after_root)
-    for c in cases:
-        g = c["g"]
-        x = c["ent"]
-        c["new_texts"] = dict(g["texts"])
-        for f, es in c["edits_by_file"].items():
-            t = g["texts"][f]
-            # arrival order of the answer (not sorted): the model sorts itself
-            order = [(l0, c0, l1, c1, NEW_NAME) for (l0, c0, l1, c1) in es]
-            c["new_texts"][f] = py_apply_edits(t, order)
-            if not x.extended:
-                a_lines.append("A|%s|%s|%s|%s" % (" ".join(str(ord(ch)) for ch in t),
-                                                  ";".join("%d,%d,%d,%d:%s" % (l0, c0, l1, c1, " ".join(str(ord(ch)) for ch in NEW_NAME))
-                                                           for (l0, c0, l1, c1) in es),
-                                                  " ".join(str(ord(ch)) for ch in x.name),
-                                                  " ".join(str(ord(ch)) for ch in NEW_NAME)))
-                a_refs.append((c, f))
-        c["dir"] = os.path.join(after_root, "r%d" % c["n"])
-        write_project(c["dir"], c["new_texts"], g["libs"], g["open"])
-
-    def run_model(lines):
-        if not lines:
-            return []
-        inp = os.path.join(d, "model.in")
-        with open(inp, "w") as fh:
-            fh.write("\n".join(lines) + "\n")
-        with open(inp) as fin:
-            p = subprocess.run([mbin], stdin=fin, stdout=subprocess.PIPE)
-        if p.returncode != 0:
-            res.violation("extracted model runner failed", {"kind": "build"}, no_failing_input=True)
-            return None
-        return p.stdout.decode().split("\n")
-
-    # ---- correspondence: rename.rs vs extracted Lsp/Rename.v
-    out = run_model(model_lines)
-    n_corr = 0
-    if out is not None:
-        for ref, line in zip(model_refs, out):
-            g, rq = ref[1], ref[2]
-            if "prepare" not in rq:
-                continue
-            n_corr += 1
-            if ref[0] == "P":
+                # ---- model of rename
+                far = ans.get("far")
+                if far is None:
+                    model_lines.append("R|1%d|0|%s|" % (1 if ans.get("source") else 0, " ".join(str(ord(c)) for c in NEW_NAME)))
+                else:
+                    outside = [p for p in far if p[0] not in fidx]
+                    for p in outside:
+                        fidx.setdefault(p[0], len(fidx))
+                    model_lines.append("R|11|1|%s|%s" % (" ".join(str(ord(c)) for c in NEW_NAME),
+                                                        ";".join("%d,%d,%d,%d,%d" % (fidx[p[0]], *p[1]) for p in far)))
+                model_refs.append(("R", g, rq, dict(fidx)))
+                # ---- oracle on the answers
                 pr = rq["prepare"]
-                got = "-" if pr is None else ("ERR" if "error" in pr else "%d,%d,%d,%d" % (
-                    pr["start"]["line"], pr["start"]["character"], pr["end"]["line"], pr["end"]["character"]))
-                if got != line.strip():
-                    is_refusal = (not rq["rename"]) and got != "-"
-                    violation("correspondence broken: prepareRename answered %s, the model of prepare_rename (fed with "
-                              "Project::item_at_cursor) answers %s" % (got, line.strip()),
-                              replay_obj(g, rq, {"kind": "correspondence",
-                                                 "correspondence": "rename.rs prepare_rename vs RH.Lsp.Rename.prepare_rename"}),
-                              nf=not is_refusal)
-            else:
-                fidx = ref[3]
+                if pr is None:
+                    stats["prepare_none_on_identifier"] += 1
+                    stats.setdefault("prepare_none_examples", []).append("%s/%s %s:%d:%d %s" % (g.get("seed"), g.get("idx"), rq["file"], rq["line"], rq["char"], x.name))
+                    if iac is None:
+                        # the search does not find the identifier at all (C08's subject); rename is then impossible, not wrong
+                        continue
+                elif "error" in pr:
+                    violation("prepareRename answered an error", replay_obj(g, rq, {"answer": pr}))
+                    continue
+                else:
+                    got = [pr["start"]["line"], pr["start"]["character"], pr["end"]["line"], pr["end"]["character"]]
+                    if got != [o.line, o.c0, o.line, o.c1]:
+                        violation("prepareRename range %s is not the identifier token %s" % (got, [o.line, o.c0, o.line, o.c1]),
+                                  replay_obj(g, rq, {"answer": pr}))
                 raw = rq.get("rename_raw")
                 if isinstance(raw, dict) and "error" in raw:
+                    violation("rename answered an error", replay_obj(g, rq, {"answer": raw}))
                     continue
-                if raw is None:
-                    got = "-"
+                changes = parse_changes(raw)
+                rq["changes"] = changes
+                edits_by_file = {}
+                bad = None
+                for path, es in changes.items():
+                    rel = os.path.relpath(path, g["dir"])
+                    if rel not in g["texts"]:
+                        bad = "(iv) rename edits a file outside the project: %s" % path
+                        break
+                    for (l0, c0, l1, c1, new) in es:
+                        if new != NEW_NAME:
+                            bad = "(iv) edit text %r is not the new name" % new
+                        edits_by_file.setdefault(rel, []).append((l0, c0, l1, c1))
+                if bad:
+                    violation(bad, replay_obj(g, rq, {"answer": raw}))
+                    continue
+                flat = [(f, *e) for f, es in edits_by_file.items() for e in es]
+                stats["edits"] += len(flat)
+                stats["files_touched_max"] = max(stats["files_touched_max"], len(edits_by_file))
+                # (iv) token-level, independent recogniser
+                problems = []
+                if len(set(flat)) != len(flat):
+                    problems.append("duplicate edits: %s" % sorted(p for p in set(flat) if flat.count(p) > 1)[:3])
+                for (f, l0, c0, l1, c1) in sorted(set(flat)):
+                    sp = toks[f].get((l0, c0, c1)) if l0 == l1 else None
+                    if sp is None:
+                        problems.append("edit %s %s does not cover exactly one identifier token" % (f, [l0, c0, l1, c1]))
+                    elif (sp != x.name if x.extended else sp.lower() != x.name.lower()):
+                        problems.append("edit %s %s covers `%s`, not the old name `%s`" % (f, [l0, c0, l1, c1], sp, x.name))
+                if problems:
+                    violation("(iv) " + "; ".join(problems[:3]), replay_obj(g, rq, {"edits": sorted(flat)}))
+                    continue
+                # (iii)+(iv) against the generator's occurrence set
+                expected = set((oc.file, oc.line, oc.c0, oc.line, oc.c1) for oc in x.occs)
+                got = set(flat)
+                missed = expected - got
+                extra = got - expected
+                if missed or extra:
+                    sites = set(oc.site for oc in x.occs if (oc.file, oc.line, oc.c0, oc.line, oc.c1) in missed)
+                    site = None
+                    if not extra and missed:
+                        if x.finding and x.finding in FINDING_SITES:
+                            site = x.finding
+                        elif len(sites) == 1 and list(sites)[0] in FINDING_SITES:
+                            site = list(sites)[0]
+                    if site and site in known:
+                        stats["known_finding_cases"][site] = stats["known_finding_cases"].get(site, 0) + 1
+                        res.count_case("known:%s:%s:%s" % (g.get("idx"), x.id, site), True)
+                        g.setdefault("known_examples", {}).setdefault(site, (rq, sorted(missed)))
+                        continue
+                    what = []
+                    if missed:
+                        what.append("(iii) %d occurrence(s) of %s `%s` missed by rename: %s" % (len(missed), x.kind, x.name, sorted(missed)[:4]))
+                    if extra:
+                        what.append("(iv) %d edit(s) touch text that is not an occurrence of the entity: %s" % (len(extra), sorted(extra)[:4]))
+                    if site:
+                        what.append("[finding site `%s`: %s — no open entry in known_findings.json]" % (site, FINDING_SITES[site]))
+                    violation("; ".join(what), replay_obj(g, rq, {"edits": sorted(flat), "expected": sorted(expected), "site": site}))
+                    continue
+                key = tuple(sorted(flat))
+                if key in seen_sets:
+                    seen_sets[key]["requests"].append(rq)
+                    continue
+                case = {"g": g, "rq": rq, "ent": x, "edits_by_file": edits_by_file, "requests": [rq], "n": len(cases)}
+                seen_sets[key] = case
+                cases.append(case)
+        stats["distinct_edit_sets"] += len(cases)
+
+        # ---- apply the edits: extracted model and python; write the renamed projects
+        a_lines = []
+        a_refs = []
+        after_root = os.path.join(d, "after")
+        if os.path.isdir(after_root):
+            shutil.rmtree(after_root)
+        for c in cases:
+            g = c["g"]
+            x = c["ent"]
+            c["new_texts"] = dict(g["texts"])
+            for f, es in c["edits_by_file"].items():
+                t = g["texts"][f]
+                # arrival order of the answer (not sorted): the model sorts itself
+                order = [(l0, c0, l1, c1, NEW_NAME) for (l0, c0, l1, c1) in es]
+                c["new_texts"][f] = py_apply_edits(t, order)
+                if not x.extended:
+                    a_lines.append("A|%s|%s|%s|%s" % (" ".join(str(ord(ch)) for ch in t),
+                                                      ";".join("%d,%d,%d,%d:%s" % (l0, c0, l1, c1, " ".join(str(ord(ch)) for ch in NEW_NAME))
+                                                               for (l0, c0, l1, c1) in es),
+                                                      " ".join(str(ord(ch)) for ch in x.name),
+                                                      " ".join(str(ord(ch)) for ch in NEW_NAME)))
+                    a_refs.append((c, f))
+            c["dir"] = os.path.join(after_root, "r%d" % c["n"])
+            write_project(c["dir"], c["new_texts"], g["libs"], g["open"])
+
+        def run_model(lines):
+            if not lines:
+                return []
+            inp = os.path.join(d, "model.in")
+            with open(inp, "w") as fh:
+                fh.write("\n".join(lines) + "\n")
+            with open(inp) as fin:
+                p = subprocess.run([mbin], stdin=fin, stdout=subprocess.PIPE)
+            if p.returncode != 0:
+                res.violation("extracted model runner failed", {"kind": "build"}, no_failing_input=True)
+                return None
+            return p.stdout.decode().split("\n")
+
+        # ---- correspondence: rename.rs vs extracted Lsp/Rename.v
+        out = run_model(model_lines)
+        n_corr = 0
+        if out is not None:
+            for ref, line in zip(model_refs, out):
+                g, rq = ref[1], ref[2]
+                if "prepare" not in rq:
+                    continue
+                n_corr += 1
+                if ref[0] == "P":
+                    pr = rq["prepare"]
+                    got = "-" if pr is None else ("ERR" if "error" in pr else "%d,%d,%d,%d" % (
+                        pr["start"]["line"], pr["start"]["character"], pr["end"]["line"], pr["end"]["character"]))
+                    if got != line.strip():
+                        is_refusal = (not rq["rename"]) and got != "-"
+                        violation("correspondence broken: prepareRename answered %s, the model of prepare_rename (fed with "
+                                  "Project::item_at_cursor) answers %s" % (got, line.strip()),
+                                  replay_obj(g, rq, {"kind": "correspondence",
+                                                     "correspondence": "rename.rs prepare_rename vs RH.Lsp.Rename.prepare_rename"}),
+                                  nf=not is_refusal)
                 else:
-                    ch = parse_changes(raw)
-                    got = sorted("%d:%s" % (fidx.get(p, -1), ";".join("%d,%d,%d,%d" % e[:4] for e in es)) for p, es in ch.items())
-                exp = "-" if line.strip() == "-" else sorted(x for x in line.strip().split("/") if x)
-                if got != exp:
-                    violation("correspondence broken: rename answered %s, the model of rename.rs (fed with "
-                              "Project::find_all_references) answers %s" % (str(got)[:300], str(exp)[:300]),
-                              replay_obj(g, rq, {"kind": "correspondence",
-                                                 "correspondence": "rename.rs rename vs RH.Lsp.Rename.rename"}), nf=True)
-    stats["model_correspondence_cases"] = n_corr
+                    fidx = ref[3]
+                    raw = rq.get("rename_raw")
+                    if isinstance(raw, dict) and "error" in raw:
+                        continue
+                    if raw is None:
+                        got = "-"
+                    else:
+                        ch = parse_changes(raw)
+                        got = sorted("%d:%s" % (fidx.get(p, -1), ";".join("%d,%d,%d,%d" % e[:4] for e in es)) for p, es in ch.items())
+                    exp = "-" if line.strip() == "-" else sorted(x for x in line.strip().split("/") if x)
+                    if got != exp:
+                        violation("correspondence broken: rename answered %s, the model of rename.rs (fed with "
+                                  "Project::find_all_references) answers %s" % (str(got)[:300], str(exp)[:300]),
+                                  replay_obj(g, rq, {"kind": "correspondence",
+                                                     "correspondence": "rename.rs rename vs RH.Lsp.Rename.rename"}), nf=True)
+        stats["model_correspondence_cases"] = stats.get("model_correspondence_cases", 0) + n_corr
 
-    # ---- edit application: extracted Edits.apply_edits == python, rename_edits_ok holds
-    out = run_model(a_lines)
-    if out is not None:
-        for (c, f), line in zip(a_refs, out):
-            parts = line.strip().split("|")
-            if len(parts) != 4:
-                violation("extracted model gave no answer for an edit application", replay_obj(c["g"], c["rq"]), nf=True)
-                continue
-            mtext = "".join(chr(int(v)) for v in parts[0].split())
-            if mtext != c["new_texts"][f]:
-                violation("edit application differs: extracted Edits.apply_edits vs independent python implementation on %s" % f,
-                          replay_obj(c["g"], c["rq"], {"kind": "correspondence", "correspondence": "Edits.apply_edits vs python"}),
-                          nf=True)
-            if parts[1] != "1" or parts[2] != "1":
-                violation("(iv) extracted checker rename_edits_ok rejects the edits of %s (ok=%s simul=%s): not pairwise disjoint "
-                          "single identifier tokens of the old name" % (f, parts[1], parts[2]),
-                          replay_obj(c["g"], c["rq"], {"edits": c["edits_by_file"]}))
-    stats["apply_cases"] = len(a_lines)
-    if out is not None and a_lines:
-        coq_cross_check(res, a_lines, out, stats)
-
-    # ---- re-analysis of the renamed projects
-    jobs = [{"dir": c["dir"], "files": [os.path.join(c["dir"], f) for f in c["g"]["order"]],
-             "open": [os.path.join(c["dir"], f) for f in c["g"]["open"]], "libs": libsdir, "full": False} for c in cases]
-    after = run_snapshots(hbin, d, "after", jobs)
-    for c, a in zip(cases, after):
-        g = c["g"]
-        x = c["ent"]
-        b = g["base"]
-        res.count_case("rename:%s:%s:%s" % (g.get("idx"), x.id, sorted(c["edits_by_file"].items())),
-                       sum(len(v) for v in c["edits_by_file"].values()) >= 2)
-        if len(res.samples) < 5 and c["n"] % 37 == 0:
-            res.add_sample({"project": "seed %s idx %s family %s" % (g.get("seed"), g.get("idx"), g["family"]),
-                            "entity": "%s %s" % (x.kind, x.name), "edits": {f: es for f, es in c["edits_by_file"].items()}})
-        if "error" in a:
-            violation("analysis of the renamed project failed: %s" % a["error"], replay_obj(g, c["rq"]))
-            continue
-        sh = Shifter({os.path.join(g["dir"], f): es for f, es in c["edits_by_file"].items()}, NEW_NAME)
-
-        def rebase(path):
-            return path.replace(c["dir"], g["dir"], 1) if path.startswith(c["dir"]) else path
-        # (i) diagnostics
-        old_l = x.name.lower()
-        new_l = NEW_NAME.lower()
-        bd = sorted((json.dumps(sh.loc(dd["loc"])), dd["code"], dd["message"].lower(),
-                     json.dumps(sorted((json.dumps(sh.loc(r[0])), r[1].lower()) for r in dd["related"]))) for dd in b["diags"])
-        ad = sorted((json.dumps([rebase(dd["loc"][0]), dd["loc"][1]]), dd["code"], dd["message"].lower().replace(new_l, old_l),
-                     json.dumps(sorted((json.dumps([rebase(r[0][0]), r[0][1]]), r[1].lower().replace(new_l, old_l))
-                                       for r in dd["related"]))) for dd in a["diags"])
-        if any(dd["error"] for dd in a["diags"]):
-            e0 = [dd for dd in a["diags"] if dd["error"]][0]
-            violation("(i) the renamed project has error diagnostics, e.g. %s %s: %s" % (os.path.basename(e0["loc"][0]), e0["loc"][1], e0["message"]),
-                      replay_obj(g, c["rq"], {"edits": c["edits_by_file"]}))
-            continue
-        if bd != ad:
-            violation("(i) diagnostics differ beyond the substituted name: before %s after %s" % (
-                [z for z in bd if z not in ad][:2], [z for z in ad if z not in bd][:2]),
-                replay_obj(g, c["rq"], {"edits": c["edits_by_file"]}))
-            continue
-        # (ii) reference map
-        def refset(snap, shift, rb):
-            out_ = []
-            for f, es in snap["refmap"].items():
-                for en in es:
-                    rr = shift.rng(f, en["range"]) if shift else en["range"]
-                    renamed = shift is not None and (f, *en["range"]) in shift.set
-                    dp = shift.loc(en["decl_pos"]) if shift else (None if en["decl_pos"] is None else [rb(en["decl_pos"][0]), en["decl_pos"][1]])
-                    ep = shift.loc(en["ent_pos"]) if shift else (None if en["ent_pos"] is None else [rb(en["ent_pos"][0]), en["ent_pos"][1]])
-                    nm = en["name"].lower()
-                    out_.append((rb(f), json.dumps(rr), json.dumps(dp), json.dumps(ep), en["dk"],
-                                 new_l if renamed else nm))
-            return sorted(out_)
-        br = refset(b, sh, lambda p: p)
-        ar = refset(a, None, rebase)
-        if br != ar:
-            violation("(ii) the reference map of the renamed project is not the renamed graph: only before %s only after %s" % (
-                [z for z in br if z not in ar][:2], [z for z in ar if z not in br][:2]),
-                replay_obj(g, c["rq"], {"edits": c["edits_by_file"]}))
-            continue
-        # (ii)/(iii) find_all_references of every declaration, keyed by declaration position
-        def farmap(snap, shift, rb):
-            pos_of = {}
-            for f, es in snap["refmap"].items():
-                for en in es:
-                    if en["decl_pos"] is not None:
-                        pos_of[str(en["decl_ent"])] = en["decl_pos"]
-            m = {}
-            for k, v in snap["decls"].items():
-                dp = pos_of.get(k)
-                if dp is None:
+        # ---- edit application: extracted Edits.apply_edits == python, rename_edits_ok holds
+        out = run_model(a_lines)
+        if out is not None:
+            for (c, f), line in zip(a_refs, out):
+                parts = line.strip().split("|")
+                if len(parts) != 4:
+                    violation("extracted model gave no answer for an edit application", replay_obj(c["g"], c["rq"]), nf=True)
                     continue
-                key_ = json.dumps(shift.loc(dp) if shift else [rb(dp[0]), dp[1]])
-                m[key_] = sorted(json.dumps(shift.loc(p) if shift else [rb(p[0]), p[1]]) for p in v["far"])
-            return m
-        bf = farmap(b, sh, lambda p: p)
-        af = farmap(a, None, rebase)
-        if bf != af:
-            diff = [k for k in set(bf) | set(af) if bf.get(k) != af.get(k)][:2]
-            violation("(iii) find_all_references of the renamed project differs for declaration(s) %s: before %s after %s" % (
-                diff, [bf.get(k) for k in diff], [af.get(k) for k in diff]),
-                replay_obj(g, c["rq"], {"edits": c["edits_by_file"]}))
-            continue
+                mtext = "".join(chr(int(v)) for v in parts[0].split())
+                if mtext != c["new_texts"][f]:
+                    violation("edit application differs: extracted Edits.apply_edits vs independent python implementation on %s" % f,
+                              replay_obj(c["g"], c["rq"], {"kind": "correspondence", "correspondence": "Edits.apply_edits vs python"}),
+                              nf=True)
+                if parts[1] != "1" or parts[2] != "1":
+                    violation("(iv) extracted checker rename_edits_ok rejects the edits of %s (ok=%s simul=%s): not pairwise disjoint "
+                              "single identifier tokens of the old name" % (f, parts[1], parts[2]),
+                              replay_obj(c["g"], c["rq"], {"edits": c["edits_by_file"]}))
+        stats["apply_cases"] = stats.get("apply_cases", 0) + len(a_lines)
+        if out is not None and a_lines and not cross_checked[0]:
+            cross_checked[0] = True
+            coq_cross_check(res, a_lines, out, stats)
+
+        # ---- re-analysis of the renamed projects
+        jobs = [{"dir": c["dir"], "files": [os.path.join(c["dir"], f) for f in c["g"]["order"]],
+                 "open": [os.path.join(c["dir"], f) for f in c["g"]["open"]], "libs": libsdir, "full": False} for c in cases]
+        after = run_snapshots(hbin, d, "after", jobs)
+        for c, a in zip(cases, after):
+            g = c["g"]
+            x = c["ent"]
+            b = g["base"]
+            res.count_case("rename:%s:%s:%s" % (g.get("idx"), x.id, sorted(c["edits_by_file"].items())),
+                           sum(len(v) for v in c["edits_by_file"].values()) >= 2)
+            if len(res.samples) < 5 and c["n"] % 37 == 0:
+                res.add_sample({"project": "seed %s idx %s family %s" % (g.get("seed"), g.get("idx"), g["family"]),
+                                "entity": "%s %s" % (x.kind, x.name), "edits": {f: es for f, es in c["edits_by_file"].items()}})
+            if "error" in a:
+                violation("analysis of the renamed project failed: %s" % a["error"], replay_obj(g, c["rq"]))
+                continue
+            sh = Shifter({os.path.join(g["dir"], f): es for f, es in c["edits_by_file"].items()}, NEW_NAME)
+
+            def rebase(path):
+                return path.replace(c["dir"], g["dir"], 1) if path.startswith(c["dir"]) else path
+            # (i) diagnostics
+            old_l = x.name.lower()
+            new_l = NEW_NAME.lower()
+            bd = sorted((json.dumps(sh.loc(dd["loc"])), dd["code"], dd["message"].lower(),
+                         json.dumps(sorted((json.dumps(sh.loc(r[0])), r[1].lower()) for r in dd["related"]))) for dd in b["diags"])
+            ad = sorted((json.dumps([rebase(dd["loc"][0]), dd["loc"][1]]), dd["code"], dd["message"].lower().replace(new_l, old_l),
+                         json.dumps(sorted((json.dumps([rebase(r[0][0]), r[0][1]]), r[1].lower().replace(new_l, old_l))
+                                           for r in dd["related"]))) for dd in a["diags"])
+            if any(dd["error"] for dd in a["diags"]):
+                e0 = [dd for dd in a["diags"] if dd["error"]][0]
+                violation("(i) the renamed project has error diagnostics, e.g. %s %s: %s" % (os.path.basename(e0["loc"][0]), e0["loc"][1], e0["message"]),
+                          replay_obj(g, c["rq"], {"edits": c["edits_by_file"]}))
+                continue
+            if bd != ad:
+                violation("(i) diagnostics differ beyond the substituted name: before %s after %s" % (
+                    [z for z in bd if z not in ad][:2], [z for z in ad if z not in bd][:2]),
+                    replay_obj(g, c["rq"], {"edits": c["edits_by_file"]}))
+                continue
+            # (ii) reference map
+            def refset(snap, shift, rb):
+                out_ = []
+                for f, es in snap["refmap"].items():
+                    for en in es:
+                        rr = shift.rng(f, en["range"]) if shift else en["range"]
+                        renamed = shift is not None and (f, *en["range"]) in shift.set
+                        dp = shift.loc(en["decl_pos"]) if shift else (None if en["decl_pos"] is None else [rb(en["decl_pos"][0]), en["decl_pos"][1]])
+                        ep = shift.loc(en["ent_pos"]) if shift else (None if en["ent_pos"] is None else [rb(en["ent_pos"][0]), en["ent_pos"][1]])
+                        nm = en["name"].lower()
+                        out_.append((rb(f), json.dumps(rr), json.dumps(dp), json.dumps(ep), en["dk"],
+                                     new_l if renamed else nm))
+                return sorted(out_)
+            br = refset(b, sh, lambda p: p)
+            ar = refset(a, None, rebase)
+            if br != ar:
+                violation("(ii) the reference map of the renamed project is not the renamed graph: only before %s only after %s" % (
+                    [z for z in br if z not in ar][:2], [z for z in ar if z not in br][:2]),
+                    replay_obj(g, c["rq"], {"edits": c["edits_by_file"]}))
+                continue
+            # (ii)/(iii) find_all_references of every declaration, keyed by declaration position
+            def farmap(snap, shift, rb):
+                pos_of = {}
+                for f, es in snap["refmap"].items():
+                    for en in es:
+                        if en["decl_pos"] is not None:
+                            pos_of[str(en["decl_ent"])] = en["decl_pos"]
+                m = {}
+                for k, v in snap["decls"].items():
+                    dp = pos_of.get(k)
+                    if dp is None:
+                        continue
+                    key_ = json.dumps(shift.loc(dp) if shift else [rb(dp[0]), dp[1]])
+                    # several entities may share one declaration position (file mapped to two libraries)
+                    m.setdefault(key_, []).append(sorted(json.dumps(shift.loc(p) if shift else [rb(p[0]), p[1]]) for p in v["far"]))
+                for key_ in m:
+                    m[key_].sort()
+                return m
+            bf = farmap(b, sh, lambda p: p)
+            af = farmap(a, None, rebase)
+            if bf != af:
+                diff = [k for k in set(bf) | set(af) if bf.get(k) != af.get(k)][:2]
+                violation("(iii) find_all_references of the renamed project differs for declaration(s) %s: before %s after %s" % (
+                    diff, [bf.get(k) for k in diff], [af.get(k) for k in diff]),
+                    replay_obj(g, c["rq"], {"edits": c["edits_by_file"]}))
+                continue
+        for g in projects:
+            for site, (rq, missed) in g.get("known_examples", {}).items():
+                agg.setdefault(site, (g, rq, missed))
+            for k in ("base", "view", "reqs"):
+                g.pop(k, None)
+        if not res.violations:
+            for p_ in (pdir_root, after_root):
+                shutil.rmtree(p_, ignore_errors=True)
+
+    bsize = 30
+    for i in range(0, len(projects), bsize):
+        run_batch(projects[i:i + bsize])
 
     # ---- known findings
-    agg = {}
-    for g in projects:
-        for site, (rq, missed) in g.get("known_examples", {}).items():
-            agg.setdefault(site, (g, rq, missed))
     for site, (g, rq, missed) in sorted(agg.items()):
         entry = known[site]
         res.known_finding("%s site=%s cases=%d example: seed=%s idx=%s rename %s `%s` at %s:%d:%d misses %s" % (
@@ -834,7 +849,7 @@ def main(tier, replay=None):
         "entities/architectures/packages/configurations referenced across files, labels, record elements, overloaded enumeration "
         "literals, aliases, attributes, hidden and prefix-sharing names, mixed-case spellings, names inside comments and strings, "
         "UTF-16 columns behind supplementary-plane characters in files opened by the client); quick: 60 projects x 8 entities "
-        "(round-robin over kinds) x 2 cursors, thorough: 420 projects x every entity x 2 cursors; a case is non-trivial when the "
+        "(round-robin over kinds) x 2 cursors, thorough: 150 projects x every entity x 2 cursors; a case is non-trivial when the "
         "rename produces at least two edits; distinct by project, entity and edit set")
     res.coverage["explanation"] = (
         "level=other: the THEOREM half covers the edit algebra (simultaneous replacement, order independence, bytes outside the "
@@ -852,8 +867,8 @@ def main(tier, replay=None):
     ]
     res.assumptions = [
         "library names are excluded (property wording: non-library entity); the new name is a fresh basic identifier",
-        "a subprogram parameter is compared per specification (declaration side / body side) in the sound family; the LRM-level "
-        "reading (one entity, conformance) is the finding family param_conformance",
+        "the formal parameters of a subprogram declaration and of its body are two entities (the implementation's entity model, "
+        "coordinator decision): a rename of one side is only required to keep diagnostics and reference graph",
         "rename refused (null) for an identifier that item_at_cursor does not find is counted, not reported (C08's subject)",
     ]
     return res.finish()
